@@ -7,7 +7,8 @@ import gen_omen
 
 SITES = ['gs_next_guess', 'gs_fill', 'gs_find_cp', 'gs_format', 'mc_init', 'mc_first', 'mc_next', 'mc_inc_len', 'mc_inc_ip',
          'opt_lookup', 'opt_update', 'opt_copy']
-TRUSTED = ['Python dict / list semantics of the loaded OMEN tables (insertion order, `in`, indexing)',
+TRUSTED = ['the memo table: fillC models the three read/write sites of _fill_out_parse_tree (their position and key are regenerated from the source: C10_cache_sites); that fillC is the real function is shown by comparing results and final table contents on random call sequences',
+           'Python dict / list semantics of the loaded OMEN tables (insertion order, `in`, indexing)',
            'modelled, not verified: pickle save/load of the enumerator state (see C15)']
 ASSUMPTIONS = ['OMEN rule files list every initial n-gram, every (prefix, letter) transition and every length once (true of trainer output)',
                'some initial n-gram and some length have a level below 10 (otherwise _find_first_object raises; modelled as `raise`)']
